@@ -87,7 +87,20 @@ void h_td_uuid(void) {
 }
 /* allocating reader: result is NULL or a fresh NUL-terminated string; nothing stays allocated on failure */
 void h_td_string_alloc(void) {
-  thrift_decoder_t *d = mk_dec();
+  /* heap decoder here (freed at the end: the leak check must see only the function's own allocations) */
+  thrift_decoder_t *d = malloc(sizeof(*d));
+  size_t n = nondet_size_t();
+  __CPROVER_assume(n <= CQV_MAXBUF);
+  uint8_t *in = malloc(n);
+  __CPROVER_assume(d != NULL && in != NULL);
+#ifdef CQV_CANARIES
+  /* reachability (existential) build only: small inputs keep the printed counterexample traces small
+   * (an arbitrary-length havocked slice in a trace exhausts memory); the proof build is unrestricted */
+  __CPROVER_assume(n <= 64);
+#endif
+  d->reader.data = in;
+  d->reader.size = n;
+  __CPROVER_assume(d->reader.pos <= n && d->nesting_level >= 0 && d->nesting_level <= THRIFT_MAX_NESTING);
   const uint8_t *buf = d->reader.data;
   size_t pos0 = d->reader.pos;
   carquet_status_t st0 = d->status;
@@ -101,6 +114,7 @@ void h_td_string_alloc(void) {
     free(s);
   }
   free((void *)buf);
+  free(d);
   CQV_CANARY("string_alloc harness end");
 }
 void h_td_struct_begin(void) { thrift_decoder_t *d = mk_dec(); thrift_read_struct_begin(d); CQV_CANARY("struct_begin returns"); }
